@@ -229,6 +229,8 @@ func (s *FastModularNetworkSolver) recursiveActivateNode(currentNode int) (res b
 
 	// Set this signal after running it through the activation function
 	signal := s.neuronSignalsBeingProcessed[currentNode]
+	// the scratch sum is cleared again: forward steps accumulate into this buffer and expect it to be empty
+	s.neuronSignalsBeingProcessed[currentNode] = 0
 	if s.biasNeuronCount > 0 {
 		// append BIAS value to the signal if appropriate
 		signal += s.biasList[currentNode]
